@@ -39,6 +39,35 @@ def mutate_all(x):
         x.append("__poison__")
 
 
+NESTED = [lambda: ["a", 1, None], lambda: {"k": [1, 2], "z": {"y": "x"}}, lambda: [[1], {"q": []}], lambda: {"deep": {"er": ["x"]}}, lambda: []]
+
+
+def nest(j, rng, p=0.4):
+    """a copy of JSON data in which some attribute values (node / mark `attrs`, attr-step `value`) are structured values"""
+    if isinstance(j, list):
+        return [nest(x, rng, p) for x in j]
+    if not isinstance(j, dict):
+        return j
+    out = {}
+    for k, v in j.items():
+        if k == "attrs" and isinstance(v, dict):
+            out[k] = {a: (rng.choice(NESTED)() if a not in ("level", "lvl", "order", "colspan") and rng.random() < p else x) for a, x in v.items()}
+        elif k == "value" and j.get("stepType") in ("attr", "docAttr") and rng.random() < 0.7:
+            out[k] = rng.choice(NESTED)()
+        else:
+            out[k] = nest(v, rng, p)
+    return out
+
+
+def has_structured(j):
+    if isinstance(j, dict):
+        return any((k in ("attrs",) and isinstance(v, dict) and any(isinstance(x, (list, dict)) for x in v.values()))
+                   or (k == "value" and isinstance(v, (list, dict))) or has_structured(v) for k, v in j.items())
+    if isinstance(j, list):
+        return any(has_structured(x) for x in j)
+    return False
+
+
 def size0_nonempty(step):
     sl = getattr(step, "slice", None)
     return sl is not None and sl.size == 0 and sl.content.size > 0
@@ -95,6 +124,38 @@ def run(ctx):
                 metas.append(("toJson", replay, canon(wire(j))))
                 reqs.append({"op": "fromJson", "s": sid, "k": kind, "v": wire(j)})
                 metas.append(("fromJson", replay, enc(back)))
+            # structured attribute values (lists / dicts): the library's side only — round trip and aliasing probe
+            m2 = gen.gen_mark(rng, schema)
+            cands = [("node", d.to_json(), Node.from_json), ("slice", sl.to_json(), Slice.from_json)]
+            if m2 is not None:
+                cands.append(("mark", m2.to_json(), Mark.from_json))
+            cands.append(("step", gen.gen_step(rng, info, d, docs).to_json(), Step.from_json))
+            for kind, j0, from_json in cands:
+                jn = nest(j0, rng)
+                if j0 is None or not has_structured(jn):
+                    continue
+                replay = {"schema": info.name, "kind": kind, "json": jn, "structured_attrs": True}
+                st, obj = outcome(lambda: from_json(schema, wire(jn)))
+                if st != "ok":
+                    ctx.count("structured:" + st)
+                    continue
+                ctx.case(["structured", kind, info.name, jn], sample={"op": "json round trip, structured attrs", "kind": kind, "json": str(jn)[:200]})
+                ctx.count("structured:" + kind)
+                j1 = obj.to_json()
+                st2, back = outcome(lambda: from_json(schema, wire(j1)))
+                if st2 != "ok" or canon(back.to_json()) != canon(j1) or (kind != "step" and not back.eq(obj)):
+                    ctx.violation("round-trip", f"{kind} with structured attribute values: reading the JSON back does not give an equal object / identical JSON", replay)
+                before = canon(j1)
+                mutate_all(j1)
+                if canon(obj.to_json()) != before:
+                    ctx.violation("aliasing", f"{kind}: the JSON produced aliases live attribute objects (mutating it changed the source object)", replay)
+                # and the other direction: the object must not alias the JSON it was read from
+                src = wire(jn)
+                obj2 = from_json(schema, src)
+                before2 = canon(obj2.to_json())
+                mutate_all(src)
+                if canon(obj2.to_json()) != before2:
+                    ctx.count("from_json_keeps_reference_to_input")
             # steps
             for _ in range(ctx.budget(10, 30)):
                 step = gen.gen_step(rng, info, d, docs)
